@@ -35,7 +35,11 @@ class E1(Exception):
 
 
 class E1s(E1):
-    pass
+    """an exception that cannot be rendered (`__str__` needs fields a malformed response lacks): whether and how the retry is
+    logged must not decide whether it happens – the logging machinery swallows formatting errors, the retry loop must not format"""
+
+    def __str__(self) -> str:
+        raise KeyError("detail")
 
 
 class E2(Exception):
@@ -69,6 +73,7 @@ _quiet = False
 
 
 def _silence():
+    logging.raiseExceptions = False    # errors while formatting a record are swallowed silently (no traceback on stderr)
     global _quiet
     if not _quiet:
         logging.disable(logging.CRITICAL)  # retry logs every attempt through the root logger
